@@ -734,6 +734,14 @@ impl Wal {
         Ok((out, committed_len))
     }
 
+    /// Current length of the log file.
+    pub fn len(&self) -> Result<u64> {
+        let Some(file) = self.file.as_ref() else {
+            return Err(Error::WalProtocol("wal file is closed"));
+        };
+        Ok(file.metadata()?.len())
+    }
+
     /// Cuts off everything behind `len`. Appends go to the end of the file, so a torn or
     /// garbage tail left in place would hide every later transaction from the reader.
     pub fn truncate_to(&mut self, len: u64) -> Result<()> {
